@@ -74,6 +74,9 @@ def ansi_part(ids) -> str:
 def settings_args(op):
     """(positional settings tuple) for constructors / format_matching: op['st'] is a spec or None;
     op.get('star') passes the top-level items as separate arguments."""
+    if op.get('raw') is not None:
+        # separate positional ints / ';'-strings that only together form groups (the *fmt tuple is ONE settings list)
+        return tuple(op['raw'])
     st = op.get('st')
     if st is None:
         return ()
